@@ -124,9 +124,13 @@ def kernels():
         "  exists d, extent ROps %s = Ok (d, 0%%Z, 1%%Z) /\\ [d] = {T} ROps {vars}.\n"
         "Proof. intros {vars} Hpath. unfold {T}_path in Hpath; rops. path_facts Hpath. unfold {T}.\n"
         "  cbv [extent ext_loop ext_step distances map argmax argmax_from vdist vnorm vnorm2 vdot vsub vx vy vz]; rops.\n"
-        "  repeat (match goal with |- context [Rltb ?a ?b] => destruct (Rltb_spec a b); try (exfalso; lra) end; cbv beta iota).\n"
-        "  eexists; split; [reflexivity|]. list_eq ltac:(first [reflexivity | (f_equal; ring)]). Qed." % PS,
-        imports=IMPORTS,
+        "  (* independent of HOW the code searches (per-probe loop, distance matrix + flat argmax, ...): name the distances,\n"
+        "     d_ii = 0, d_ij = d_ji, 0 <= d; then decide the model's comparisons from the recorded order facts. A comparison\n"
+        "     the code never made may stay open: both branches must then lead to the stated result *)\n"
+        "  abstract_sqrts.\n"
+        "  repeat (match goal with |- context [Rltb ?a ?b] => destruct (Rltb_spec a b); try (exfalso; lra) end; cbv beta iota);\n"
+        "  (eexists; split; [reflexivity|]); list_eq ltac:(first [reflexivity | lra]). Qed." % PS,
+        imports=IMPORTS + [("PW.proofs", "P_vec"), ("PW.proofs", "P_pointcloud")],
         expect_structure={"tuple": ["e", 0, 1]}))
     # extent with a tie inside np.argmax (probe 0 is equally far from both others) and a later, strictly larger pair (1, 2)
     ks.append(Kernel(
@@ -136,9 +140,13 @@ def kernels():
         "  exists d, extent ROps %s = Ok (d, 1%%Z, 2%%Z) /\\ [d] = {T} ROps {vars}.\n"
         "Proof. intros {vars} Hpath. unfold {T}_path in Hpath; rops. path_facts Hpath. unfold {T}.\n"
         "  cbv [extent ext_loop ext_step distances map argmax argmax_from vdist vnorm vnorm2 vdot vsub vx vy vz]; rops.\n"
-        "  repeat (match goal with |- context [Rltb ?a ?b] => destruct (Rltb_spec a b); try (exfalso; lra) end; cbv beta iota).\n"
-        "  eexists; split; [reflexivity|]. list_eq ltac:(first [reflexivity | (f_equal; ring)]). Qed." % PS,
-        imports=IMPORTS,
+        "  (* independent of HOW the code searches (per-probe loop, distance matrix + flat argmax, ...): name the distances,\n"
+        "     d_ii = 0, d_ij = d_ji, 0 <= d; then decide the model's comparisons from the recorded order facts. A comparison\n"
+        "     the code never made may stay open: both branches must then lead to the stated result *)\n"
+        "  abstract_sqrts.\n"
+        "  repeat (match goal with |- context [Rltb ?a ?b] => destruct (Rltb_spec a b); try (exfalso; lra) end; cbv beta iota);\n"
+        "  (eexists; split; [reflexivity|]); list_eq ltac:(first [reflexivity | lra]). Qed." % PS,
+        imports=IMPORTS + [("PW.proofs", "P_vec"), ("PW.proofs", "P_pointcloud")],
         expect_structure={"tuple": ["e", 1, 2]}, perturb=0.0))
     # percentile on three symbolic points and a symbolic axis (coordinates along the axis in increasing order), for two
     # percentiles whose virtual index is dyadic (so NumPy's float index arithmetic is exact): q = 25 -> index 1/2
@@ -166,18 +174,27 @@ def kernels():
         "    replace (Rfloor (IZR (Z.of_nat 3 - 1) * (%s / 100))) with 0%%Z by (symmetry; apply Rfloor_unique; simpl; lra).\n"
         "    simpl. unfold n0; rops. field. }\n"
         "  cbn [map]. fold c0 c1 c2. rewrite Ev. clear Es Ev.\n"
+        "  (* independent of HOW the code normalises and rejects (vg helpers, inline NumPy, one or two normalisations):\n"
+        "     the axis is not almost zero, hence non-zero, so its norm s has s * s = a.a and an inverse i; every other\n"
+        "     square root is the norm of the unit axis (= 1); what remains is ideal membership modulo these facts *)\n"
+        "  pose proof (vnorm_pos _ (almost_zero_false_nonzero _ Haz)) as Hpos. pose proof (vnorm_sq (V3 a0 a1 a2)) as Hsq.\n"
+        "  vunf_in Hpos. vunf_in Hsq.\n"
         "  unfold c0, c1, c2, u. cbv [centroid vsum fold_left length vreject vnormalize vnorm vnorm2 vdivs vdot vadd vsub vscale vzero vx vy vz n0 List.nth]; rops.\n"
-        "  simpl Z.of_nat.\n"
-        "  set (s := sqrt (a0 * a0 + a1 * a1 + a2 * a2)).\n"
-        "  set (s2 := sqrt (a0 / s * (a0 / s) + a1 / s * (a1 / s) + a2 / s * (a2 / s))).\n"
-        "  apply V3_ext; unfold nfrac; rops; unfold Rdiv; ring.\nQed.")
+        "  simpl Z.of_nat. unfold nfrac; rops.\n"
+        "  set (s := sqrt (a0 * a0 + a1 * a1 + a2 * a2)) in *.\n"
+        "  repeat match goal with |- context [sqrt ?e] => replace (sqrt e) with s by (unfold s; f_equal; ring) end.\n"
+        "  unfold Rdiv in *. set (i := / s) in *. assert (Hi : i * s = 1) by (unfold i; field; lra).\n"
+        "  clearbody i. clearbody s.\n"
+        "  repeat match goal with |- context [sqrt ?e] => replace e with 1 by nsatz; rewrite sqrt_1 end.\n"
+        "  rewrite ?Rinv_1.\n"
+        "  apply V3_ext; nsatz.\nQed.")
     for name, qf, qc, val in (("percentile_q25", 25.0, "25", "c1 - (c1 - c0) * (1 / 2)"),
                               ("percentile_q12_5", 12.5, "25 / 2", "c0 + (c1 - c0) * (1 / 4)")):
         ks.append(Kernel(
             name, {"p": [[1.0, 5.0, -2.0], [3.0, 4.0, 0.5], [2.0, 6.0, -1.0]], "a": [1.0, 2.0, 1.0]},
             (lambda qf: lambda p, a: percentile(p, a, qf))(qf),
             pct_lemma % (PS, qc, qc, val, "(%s)" % qc),
-            imports=IMPORTS + [("PW.proofs", "P_vec"), ("PW.proofs", "P_pointcloud")]))
+            imports=[("Coq", "Nsatz")] + IMPORTS + [("PW.proofs", "P_vec"), ("PW.proofs", "P_pointcloud")]))
     return ks
 
 
